@@ -479,7 +479,7 @@ DerOps(t) ==
   \cup (IF t = "name" THEN { <<"SelfIssue", "-">> } ELSE {})
   \cup (IF t = "time" THEN { <<"TimeShape", a>> : a \in { "generalized", "utc-nosec", "year0000", "feb30",
                                                           "offset", "fraction", "empty" } } ELSE {})
-  \cup (IF t = "bits" THEN { <<"BitsShape", a>> : a \in { "unused8", "unused7", "nounusedbyte" } } ELSE {})
+  \cup (IF t = "bits" THEN { <<"BitsShape", a>> : a \in { "unused8", "unused7", "nounusedbyte", "zeros" } } ELSE {})
   \cup (IF t = "oid" THEN { <<"OidShape", a>> : a \in { "arc-huge", "lead80", "unterminated", "first3" } } ELSE {})
   \cup (IF t = "bool" THEN { <<"BoolShape", a>> : a \in { "01", "two-bytes" } } ELSE {})
   \cup (IF t = "str" THEN { <<"StrShape", a>> : a \in { "bmp-odd", "utf8-bad", "printable-bad", "t61", "universal-bad" } } ELSE {})
